@@ -211,6 +211,17 @@ func (c *Ctx) MatchFinding(id string) *Finding {
 	return nil
 }
 
+// FindingStatus returns "finding", "fixed" or "" (not listed) for a finding id of this property.
+func (c *Ctx) FindingStatus(id string) string {
+	for i := range c.findings {
+		f := &c.findings[i]
+		if f.Property == c.ID && f.ID == id {
+			return f.Status
+		}
+	}
+	return ""
+}
+
 // Known prints the KNOWN-FINDING line for a listed finding (once per finding per run) and counts it.
 // It returns false when the finding is not listed (the caller must then report a violation).
 func (c *Ctx) Known(findingID string) bool {
